@@ -222,9 +222,37 @@ pub fn run(g: &mut Global) {
     // streams of 10 000 .. 20 000 inputs (hundreds of wrap-arounds); quick keeps the periods small
     let cap = g.tier.pick(48usize, 1024usize);
     g.random("long", g.tier.pick(64, 1000), &move || long_strategy(cap), &check);
+    // windows far beyond 1024 slots (the property samples 1..=1024; block sizes and re-sync intervals of an
+    // implementation may sit higher): 3n+50 inputs, the O(n) reference evaluated every n/24-th step
+    let seed = g.seed;
+    let bigp: Vec<(Kind, usize)> = {
+        let mut v = vec![];
+        for &k in &[Kind::Sma, Kind::Wma, Kind::Sd, Kind::Bb, Kind::Min, Kind::Max] {
+            for n in [1025usize, 1500, 4097, 5000, 9001] {
+                v.push((k, n));
+            }
+        }
+        for n in [1025usize, 1500, 2500] {
+            v.push((Kind::Mad, n));
+        }
+        v
+    };
+    let nbp = bigp.len() as u64;
+    g.exhaustive(
+        "large_periods",
+        nbp * g.tier.pick(2, 6),
+        &move |i| {
+            let (kind, n) = bigp[(i % nbp) as usize];
+            let regime = [0usize, 5, 7, 4, 1, 3][((i / nbp) % 6) as usize];
+            let mut s = seed ^ (i + 9).wrapping_mul(0x9E3779B97F4A7C15);
+            let noise: Vec<f64> = (0..3 * n + 50).map(|_| unit(&mut s)).collect();
+            let vals = expand(Domain::AnySign, regime, [1.0, 85.18, 1e5][(i % 3) as usize], unit(&mut s), &noise);
+            Case { cfg: Cfg { kind, p: vec![n], m: X(2.0) }, xs: xs(&vals), resets: vec![], stride: n / 24 }
+        },
+        &check,
+    );
     // ultra-long single-instance streams, recomputed from the harness's ring at sampled steps and
     // densely after every power-of-two step count (c13::check_as)
-    let seed = g.seed;
     let wk = [(Kind::Sma, 5usize), (Kind::Wma, 7), (Kind::Sd, 20), (Kind::Bb, 9), (Kind::Min, 14), (Kind::Max, 3), (Kind::Mad, 6), (Kind::Sd, 3)];
     g.exhaustive(
         "ultra",
